@@ -1,6 +1,10 @@
 /-
   Assembly: every single-byte alteration of `encodeFru img` at a covered position other than an
-  info-area length byte violates `checksumsOk`.  Also: `encodeFru img` is a byte string.  Core only.
+  info-area length byte violates `checksumsClamped` (hence `checksumsOk`).  The info-area length
+  byte: whatever the bytes, acceptance by a reader that validates the length byte means the
+  declared length is ≥ 1 unit, inside the data, and the declared span sums to zero
+  (`accept_area_span`), so an altered length byte lies inside a verified span
+  (`alter_length_byte`).  Also: `encodeFru img` is a byte string.  Core only.
 -/
 import PyIpmi.Lemmas.FruAlter
 namespace PyIpmi.Fru
@@ -77,7 +81,7 @@ theorem mul_div_off (n : Nat) (h : n / 8 * 8 = n) : 8 * (n / 8) = n := by omega
 theorem alter_image (img : FruImage) (hwf : img.wf = true) (i b' old : Nat)
     (hold : (encodeFru img)[i]? = some old) (hb' : b' < 256) (hne : b' ≠ old)
     (hc : covered img i = true) (hl : isAreaLengthByte img i = false) :
-    checksumsOk ((encodeFru img).set i b') = false := by
+    checksumsClamped ((encodeFru img).set i b') = false := by
   obtain ⟨wc, wb, wp, wr⟩ := wf_parts img hwf
   obtain ⟨g2, g3, g4, g5⟩ := header_getD img
   obtain ⟨_, m2, m3, m4, m5⟩ := offs_mul img
@@ -87,7 +91,7 @@ theorem alter_image (img : FruImage) (hwf : img.wf = true) (i b' old : Nat)
   obtain ⟨⟨lc, lb⟩, lp⟩ := hl
   rcases hc with (((hc | hc) | hc) | hc) | hc
   · -- common header
-    apply checksumsOk_false_hdr
+    apply checksumsClamped_false_hdr
     rw [List.take_set, take_header]
     have hh : img.header[i]? = some old := by
       rw [← take_header, List.getElem?_take_of_lt hc]; exact hold
@@ -106,7 +110,7 @@ theorem alter_image (img : FruImage) (hwf : img.wf = true) (i b' old : Nat)
       simp only [FruImage.chOff] at hoff ⊢; simp [hHl, hoff]
     have hi : i = (img.header ++ img.parts.iu).length + (i - img.chOff) := by omega
     have hjl : i - img.chOff < (encodeArea c.toArea).length := by rw [← hch]; omega
-    apply checksumsOk_false2
+    apply checksumsClamped_false2
     rw [hbs, hi]
     refine alter_area c.toArea (wc c hcs) _ _ 2 (by simp [hHl]; omega) (by simp [hHl]) ?_
       (i - img.chOff) hj1 b' old ?_ hb' hne
@@ -126,7 +130,7 @@ theorem alter_image (img : FruImage) (hwf : img.wf = true) (i b' old : Nat)
       simp only [FruImage.bdOff] at hoff ⊢; simp [hHl, hoff]; omega
     have hi : i = (img.header ++ (img.parts.iu ++ img.parts.ch)).length + (i - img.bdOff) := by omega
     have hjl : i - img.bdOff < (encodeArea c.toArea).length := by rw [← hch]; omega
-    apply checksumsOk_false3
+    apply checksumsClamped_false3
     rw [hbs, hi]
     refine alter_area c.toArea (wb c hcs).1 _ _ 3 (by simp [hHl]; omega) (by simp [hHl]) ?_
       (i - img.bdOff) hj1 b' old ?_ hb' hne
@@ -147,7 +151,7 @@ theorem alter_image (img : FruImage) (hwf : img.wf = true) (i b' old : Nat)
     have hi : i = (img.header ++ (img.parts.iu ++ (img.parts.ch ++ img.parts.bd))).length + (i - img.prOff) := by
       omega
     have hjl : i - img.prOff < (encodeArea c.toArea).length := by rw [← hch]; omega
-    apply checksumsOk_false4
+    apply checksumsClamped_false4
     rw [hbs, hi]
     refine alter_area c.toArea (wp c hcs) _ _ 4 (by simp [hHl]; omega) (by simp [hHl]) ?_
       (i - img.prOff) hj1 b' old ?_ hb' hne
@@ -170,11 +174,109 @@ theorem alter_image (img : FruImage) (hwf : img.wf = true) (i b' old : Nat)
     have hi : i = (img.header ++ (img.parts.iu ++ (img.parts.ch ++ (img.parts.bd ++ img.parts.pr)))).length +
         (i - img.mrOff) := by omega
     have hjl : i - img.mrOff < (encodeRecords img.records).length := by rw [← hmr]; omega
-    apply checksumsOk_false5
+    apply checksumsClamped_false5
     rw [hbs, hi]
     refine alter_multi img.records hrne wr _ (by simp [hHl]; omega) (by simp [hHl]) ?_
       (i - img.mrOff) b' old ?_ hb' hne
     · rw [getD_append_left _ _ _ (by omega), g5, hPl]; exact mul_div_off _ m5
     · rw [← getElem?_middle _ _ [] _ hjl, ← hi, ← hbs]; exact hold
+
+theorem alter_image_strict (img : FruImage) (hwf : img.wf = true) (i b' old : Nat)
+    (hold : (encodeFru img)[i]? = some old) (hb' : b' < 256) (hne : b' ≠ old)
+    (hc : covered img i = true) (hl : isAreaLengthByte img i = false) :
+    checksumsOk ((encodeFru img).set i b') = false :=
+  checksumsOk_false_of_clamped _ (alter_image img hwf i b' old hold hb' hne hc hl)
+
+/-! ### the info-area length byte -/
+
+/-- For ANY byte string: if the header byte `k` (2 chassis, 3 board, 4 product) announces an area
+that starts inside the data, `checksumsOk` says that the area's declared length `L` (its byte 1) is
+at least one unit of 8 bytes, that the declared span lies inside the data, and that it sums to
+zero. -/
+theorem checksums_area_span (bs : List Nat) (k : Nat) (hk : k = 2 ∨ k = 3 ∨ k = 4)
+    (hoff : bs.getD k 0 ≠ 0) (hin : 8 * bs.getD k 0 < bs.length) (h : checksumsOk bs = true) :
+    1 ≤ bs.getD (8 * bs.getD k 0 + 1) 0 ∧
+    8 * bs.getD k 0 + 8 * bs.getD (8 * bs.getD k 0 + 1) 0 ≤ bs.length ∧
+    sum8 ((bs.drop (8 * bs.getD k 0)).take (8 * bs.getD (8 * bs.getD k 0 + 1) 0)) = 0 := by
+  have harea : areaSumOk (areaAt bs k) = true := by
+    simp only [checksumsOk, Bool.and_eq_true, Bool.or_eq_true, beq_iff_eq] at h
+    obtain ⟨⟨⟨⟨_, a2⟩, a3⟩, a4⟩, _⟩ := h
+    rcases hk with rfl | rfl | rfl
+    · exact a2.resolve_left hoff
+    · exact a3.resolve_left hoff
+    · exact a4.resolve_left hoff
+  unfold areaAt at harea
+  have hnn : bs.drop (8 * bs.getD k 0) ≠ [] := by
+    intro he
+    have h0 : (bs.drop (8 * bs.getD k 0)).length = 0 := by rw [he]; rfl
+    rw [List.length_drop] at h0
+    omega
+  have hd1 : (bs.drop (8 * bs.getD k 0)).getD 1 0 = bs.getD (8 * bs.getD k 0 + 1) 0 := by
+    simp [List.getD_eq_getElem?_getD, List.getElem?_drop]
+  cases hd : bs.drop (8 * bs.getD k 0) with
+  | nil => exact absurd hd hnn
+  | cons x t =>
+    have hlen : (x :: t).length = bs.length - 8 * bs.getD k 0 := by rw [← hd, List.length_drop]
+    rw [hd] at harea hd1
+    simp only [areaSumOk, Bool.and_eq_true, decide_eq_true_eq, beq_iff_eq] at harea
+    rw [hd1, hlen] at harea
+    obtain ⟨⟨h1, h2⟩, h3⟩ := harea
+    exact ⟨h1, by omega, h3⟩
+
+/-- acceptance by a reader that validates the length byte, in the same terms -/
+theorem accept_area_span (v : Variant) (hv : v.areaLenLax = false) (kd : InputKind) (bs : List Nat)
+    (fv : FruView) (k : Nat) (hk : k = 2 ∨ k = 3 ∨ k = 4)
+    (hoff : bs.getD k 0 ≠ 0) (hin : 8 * bs.getD k 0 < bs.length) (hp : parseFru v kd bs = .ok fv) :
+    1 ≤ bs.getD (8 * bs.getD k 0 + 1) 0 ∧
+    8 * bs.getD k 0 + 8 * bs.getD (8 * bs.getD k 0 + 1) 0 ≤ bs.length ∧
+    sum8 ((bs.drop (8 * bs.getD k 0)).take (8 * bs.getD (8 * bs.getD k 0 + 1) 0)) = 0 :=
+  checksums_area_span bs k hk hoff hin (accept_checksums v hv kd bs fv hp)
+
+/-- where the length bytes of an encoded image are: `i = off + 1` for an area offset `off` that
+the header announces in byte `k` -/
+theorem lengthByte_locate (img : FruImage) (i : Nat) (hlb : isAreaLengthByte img i = true) :
+    ∃ k off, (k = 2 ∨ k = 3 ∨ k = 4) ∧ i = off + 1 ∧ 8 ≤ off ∧ img.header.getD k 0 = off / 8 ∧
+      8 * (off / 8) = off := by
+  obtain ⟨g2, g3, g4, _⟩ := header_getD img
+  obtain ⟨_, m2, m3, m4, _⟩ := offs_mul img
+  simp only [isAreaLengthByte, Bool.or_eq_true, Bool.and_eq_true, decide_eq_true_eq] at hlb
+  rcases hlb with (⟨h0, hi⟩ | ⟨h0, hi⟩) | ⟨h0, hi⟩
+  · have h8 : 8 ≤ img.chOff := by
+      have := (offOf_ne_zero (p := img.chassis.isSome) h0).2
+      simp only [FruImage.chOff] at this ⊢; omega
+    exact ⟨2, img.chOff, Or.inl rfl, hi, h8, g2, mul_div_off _ m2⟩
+  · have h8 : 8 ≤ img.bdOff := by
+      have := (offOf_ne_zero (p := img.board.isSome) h0).2
+      simp only [FruImage.bdOff] at this ⊢; omega
+    exact ⟨3, img.bdOff, Or.inr (Or.inl rfl), hi, h8, g3, mul_div_off _ m3⟩
+  · have h8 : 8 ≤ img.prOff := by
+      have := (offOf_ne_zero (p := img.product.isSome) h0).2
+      simp only [FruImage.prOff] at this ⊢; omega
+    exact ⟨4, img.prOff, Or.inr (Or.inr rfl), hi, h8, g4, mul_div_off _ m4⟩
+
+/-- An encoded image whose info-area length byte (position `i`) was set to `b'` – any value – is
+accepted by a reader that validates the length byte only if `b' ≥ 1`, the span of `8·b'` bytes
+from the area offset `i - 1` lies inside the image, and that span (which contains position `i`)
+sums to zero. -/
+theorem alter_length_byte (img : FruImage) (i old b' : Nat)
+    (hold : (encodeFru img)[i]? = some old) (hlb : isAreaLengthByte img i = true)
+    (v : Variant) (hv : v.areaLenLax = false) (kd : InputKind) (fv : FruView)
+    (hp : parseFru v kd ((encodeFru img).set i b') = .ok fv) :
+    1 ≤ b' ∧ (i - 1) + 8 * b' ≤ (encodeFru img).length ∧
+    sum8 ((((encodeFru img).set i b').drop (i - 1)).take (8 * b')) = 0 := by
+  obtain ⟨k, off, hk, hi, h8, hg, hm⟩ := lengthByte_locate img i hlb
+  obtain ⟨hil, _⟩ := List.getElem?_eq_some_iff.mp hold
+  have hk8 : k < 8 := by omega
+  have hHl := header_length img
+  have hgk : ((encodeFru img).set i b').getD k 0 = off / 8 := by
+    rw [List.getD_eq_getElem?_getD, List.getElem?_set_ne (by omega), ← List.getD_eq_getElem?_getD,
+      encodeFru, getD_append_left _ _ _ (by omega), hg]
+  have hg1 : ((encodeFru img).set i b').getD (off + 1) 0 = b' := by
+    rw [← hi, List.getD_eq_getElem?_getD, List.getElem?_set_self hil]; rfl
+  have := accept_area_span v hv kd _ fv k hk (by rw [hgk]; omega)
+    (by rw [hgk, hm, List.length_set]; omega) hp
+  rw [hgk, hm, hg1, List.length_set] at this
+  rw [show i - 1 = off from by omega]
+  exact this
 
 end PyIpmi.Fru
